@@ -1808,11 +1808,34 @@ fn check_should_abort(
     retrigger_compilation: Option<Arc<AtomicBool>>,
 ) -> Result<(), ErrorEmitted> {
     if let Some(ref retrigger_compilation) = retrigger_compilation {
+        #[cfg(fuellabs_sway_verif)]
+        verif_hooks::point("core:retrigger?");
         if retrigger_compilation.load(Ordering::SeqCst) {
             return Err(handler.cancel());
         }
     }
     Ok(())
+}
+
+/// Verification hook (only with `--cfg fuellabs_sway_verif`): the calling thread's callback, if
+/// one is installed, is called right before the compiler reads the language server's
+/// `retrigger_compilation` flag. Without a callback nothing happens.
+#[cfg(fuellabs_sway_verif)]
+pub mod verif_hooks {
+    use std::cell::RefCell;
+    thread_local! {
+        static CALLBACK: RefCell<Option<Box<dyn Fn(&'static str)>>> = const { RefCell::new(None) };
+    }
+    pub fn set_thread_callback(callback: Option<Box<dyn Fn(&'static str)>>) {
+        CALLBACK.with(|c| *c.borrow_mut() = callback);
+    }
+    pub fn point(label: &'static str) {
+        CALLBACK.with(|c| {
+            if let Some(callback) = c.borrow().as_ref() {
+                callback(label);
+            }
+        });
+    }
 }
 
 pub fn dump_trait_impls_for_typename(
